@@ -7,7 +7,7 @@
    lemma over the 56 instructions.  Statements are proved by induction on the statement tree
    (a nested induction on the item list for `for`), expressions by induction on the expression;
    a library of templates by induction on the library list. *)
-From TeraV Require Import Model.Value Model.Instr Model.VFormat Model.VM Model.World0 Spec.Stmt Model.Compile Gen.Tables.
+From TeraV Require Import Model.Value Model.Instr Model.VFormat Model.Slice Model.VM Model.World0 Spec.Stmt Model.Compile Gen.Tables.
 Local Open Scope nat_scope.
 
 (* ---------- small facts ---------- *)
@@ -40,6 +40,15 @@ Section ExprInd.
   Hypothesis Hbin : forall op a b, P a -> P b -> P (EBin op a b).
   Hypothesis Hneg : forall e, P e -> P (ENeg e).
   Hypothesis Htern : forall c a b, P c -> P a -> P b -> P (ETernary c a b).
+  Hypothesis Hao : forall e a, P e -> P (EAttrOpt e a).
+  Hypothesis Hsub : forall opt a b, P a -> P b -> P (ESub opt a b).
+  Hypothesis Hsl : forall opt e sa sb sc, P e ->
+    match sa with Some x => P x | None => True end ->
+    match sb with Some x => P x | None => True end ->
+    match sc with Some x => P x | None => True end -> P (ESlice opt e sa sb sc).
+  Hypothesis Hcall : forall n kw, Forall (fun ke => P (snd ke)) kw -> P (ECall n kw).
+  Hypothesis Harr : forall items, Forall (fun ie => P (snd ie)) items -> P (EArr items).
+  Hypothesis Hmap : forall es, Forall (fun ke => P (snd ke)) es -> P (EMap es).
   Fixpoint expr_ind' (e : expr) : P e :=
     match e with
     | EConst v => Hc v
@@ -61,6 +70,34 @@ Section ExprInd.
     | EBin op a b => Hbin op a b (expr_ind' a) (expr_ind' b)
     | ENeg e => Hneg e (expr_ind' e)
     | ETernary c a b => Htern c a b (expr_ind' c) (expr_ind' a) (expr_ind' b)
+    | EAttrOpt e a => Hao e a (expr_ind' e)
+    | ESub o a b => Hsub o a b (expr_ind' a) (expr_ind' b)
+    | ESlice o e a b c =>
+        Hsl o e a b c (expr_ind' e)
+            (match a as q return (match q return Prop with Some x => P x | None => True end) with Some x => expr_ind' x | None => I end)
+            (match b as q return (match q return Prop with Some x => P x | None => True end) with Some x => expr_ind' x | None => I end)
+            (match c as q return (match q return Prop with Some x => P x | None => True end) with Some x => expr_ind' x | None => I end)
+    | ECall n kw =>
+        Hcall n kw
+           ((fix go (l : list (str * expr)) : Forall (fun ke => P (snd ke)) l :=
+               match l with
+               | [] => Forall_nil _
+               | ke :: t => Forall_cons ke (expr_ind' (snd ke)) (go t)
+               end) kw)
+    | EArr items =>
+        Harr items
+           ((fix go (l : list (bool * expr)) : Forall (fun ie => P (snd ie)) l :=
+               match l with
+               | [] => Forall_nil _
+               | ie :: t => Forall_cons ie (expr_ind' (snd ie)) (go t)
+               end) items)
+    | EMap es =>
+        Hmap es
+           ((fix go (l : list (option value * expr)) : Forall (fun ke => P (snd ke)) l :=
+               match l with
+               | [] => Forall_nil _
+               | ke :: t => Forall_cons ke (expr_ind' (snd ke)) (go t)
+               end) es)
     end.
 End ExprInd.
 
@@ -423,6 +460,39 @@ Section Sim.
       destruct (w_negate wd v); reflexivity.
     Qed.
 
+    Lemma run_LoadAttrOpt f pc b stk l sv c o v a : nth_error ch pc = Some (LoadAttrOpt a) ->
+      R (S f) pc (mk b (v :: stk) l sv c) o
+      = if is_undefined v || is_none v then R f (S pc) (mk b (VUndef :: stk) l sv c) o
+        else R f (S pc) (mk b ((match w_get_attr wd v a with Some x => x | None => VUndef end) :: stk) l sv c) o.
+    Proof.
+      intros H. cbn [run]. rewrite H. cbn [pop1 stack mk andb].
+      destruct (is_undefined v); cbn [orb]; [reflexivity|]. destruct (is_none v); reflexivity.
+    Qed.
+
+    Lemma run_Subscript f pc b stk l sv c o v i opt :
+      nth_error ch pc = Some (if opt : bool then BinarySubscriptOpt else BinarySubscript) ->
+      R (S f) pc (mk b (i :: v :: stk) l sv c) o
+      = match subscript wd opt v i with
+        | ROk r => R f (S pc) (mk b (r :: stk) l sv c) o
+        | RErr e => RFail e
+        end.
+    Proof.
+      intros H. cbn [run]. rewrite H. destruct opt; cbn [pop2 stack mk];
+        match goal with |- context [subscript wd ?q v i] => destruct (subscript wd q v i) end; reflexivity.
+    Qed.
+
+    Lemma run_Slice f pc b stk l sv c o v x y z opt :
+      nth_error ch pc = Some (if opt : bool then SliceOpt else Slice) ->
+      R (S f) pc (mk b (z :: y :: x :: v :: stk) l sv c) o
+      = match vm_slice opt v x y z with
+        | ROk r => R f (S pc) (mk b (r :: stk) l sv c) o
+        | RErr e => RFail e
+        end.
+    Proof.
+      intros H. cbn [run]. rewrite H. destruct opt; cbn [stack mk];
+        match goal with |- context [vm_slice ?q v x y z] => destruct (vm_slice q v x y z) end; reflexivity.
+    Qed.
+
     Lemma run_JumpIfFalseOrPop f pc b stk l sv c o v t : nth_error ch pc = Some (JumpIfFalseOrPop t) ->
       R (S f) pc (mk b (v :: stk) l sv c) o
       = if is_truthy v then R f (S pc) (mk b stk l sv c) o else R f t (mk b (v :: stk) l sv c) o.
@@ -699,6 +769,26 @@ Section Sim.
       - eapply steps_fail1; [exact S1|]. intros fu. erewrite run_ApplyFilter by exact Hi2. rewrite Ef. reflexivity.
     Qed.
 
+    (* an optional operand of a slice: the expression, or the constant the compiler loads *)
+    Definition opt_code (pc : nat) (o : option expr) (d : value) : list instr :=
+      match o with Some x => compile_expr pc x | None => [LoadConst d] end.
+    Definition opt_ok (o : option expr) (d : value) : Prop :=
+      forall lex pc b stk l sv c o',
+        match o with Some x => wf_expr lex x | None => true end = true ->
+        (lex = true -> l <> []) -> Forall frame_ok l -> parent_ok b ->
+        code_at pc (opt_code pc o d) ->
+        match (match o with Some x => eval B x (absE b l sv) | None => ROk d end) with
+        | ROk v => steps pc (mk b stk l sv c) o' (pc + length (opt_code pc o d)) (mk b (v :: stk) l sv c) o'
+        | RErr _ => fails pc (mk b stk l sv c) o'
+        end.
+
+    Lemma opt_correct o d : match o with Some x => expr_ok x | None => True end -> opt_ok o d.
+    Proof.
+      intros H. destruct o as [x|]; [exact H|]. intros lex pc b stk l sv c o' _ _ _ _ Hc.
+      unfold opt_code in *. cbn [length]. apply code_at_cons in Hc as [Hi _].
+      replace (pc + 1) with (S pc) by lia. apply step1. intros fu. eapply run_LoadConst. exact Hi.
+    Qed.
+
     Lemma expr_correct : forall e, expr_ok e.
     Proof.
       induction e using expr_ind'; unfold expr_ok; intros lex pc b stk l sv c o Hwf Hlex Hfr Hpar Hc.
@@ -851,6 +941,59 @@ Section Sim.
           specialize (IHe3 lex _ b stk l sv c o Hw3 Hlex Hfr Hpar Hc3).
           destruct (eval B e3 (absE b l sv)) as [v3|x]; [|eapply steps_fails; [exact S1|exact IHe3]].
           eapply steps_trans; [exact S1|]. stepspos IHe3.
+      - (* EAttrOpt *)
+        cbn [wf_expr compile_expr] in *. apply code_at_app in Hc as [Hc1 Hc2]. apply code_at_cons in Hc2 as [Hi _].
+        specialize (IHe lex pc b stk l sv c o Hwf Hlex Hfr Hpar Hc1). cbn [eval].
+        destruct (eval B e (absE b l sv)) as [v|x]; [|exact IHe].
+        rewrite app_length. cbn [length].
+        replace (pc + (length (compile_expr pc e) + 1)) with (S (pc + length (compile_expr pc e))) by lia.
+        destruct (is_undefined v || is_none v) eqn:Eu;
+          (eapply steps_step; [exact IHe|]; intros fu; erewrite run_LoadAttrOpt by exact Hi; rewrite Eu; reflexivity).
+      - (* ESub *)
+        cbn [wf_expr compile_expr] in *. apply andb_prop in Hwf as [Hw1 Hw2].
+        apply code_at_app in Hc as [Hc1 Hc2]. apply code_at_app in Hc2 as [Hc2 Hc3].
+        apply code_at_cons in Hc3 as [Hi _].
+        specialize (IHe1 lex pc b stk l sv c o Hw1 Hlex Hfr Hpar Hc1). cbn [eval].
+        destruct (eval B e1 (absE b l sv)) as [v1|x]; [|exact IHe1].
+        specialize (IHe2 lex _ b (v1 :: stk) l sv c o Hw2 Hlex Hfr Hpar Hc2).
+        destruct (eval B e2 (absE b l sv)) as [v2|x]; [|eapply steps_fails; [exact IHe1|exact IHe2]].
+        change (b_subscript B opt v1 v2) with (subscript wd opt v1 v2).
+        rewrite !app_length. cbn [length].
+        destruct (subscript wd opt v1 v2) as [r|x] eqn:Er.
+        + eapply steps_trans; [exact IHe1|]. eapply steps_step; [exact IHe2|]. intros fu.
+          erewrite run_Subscript by exact Hi. rewrite Er. runpos.
+        + eapply steps_fails; [exact IHe1|]. eapply steps_fail1; [exact IHe2|]. intros fu.
+          erewrite run_Subscript by exact Hi. rewrite Er. reflexivity.
+      - (* ESlice *)
+        cbn [wf_expr compile_expr] in Hwf, Hc |- *.
+        apply andb_prop in Hwf as [Hwf Hw4]. apply andb_prop in Hwf as [Hwf Hw3]. apply andb_prop in Hwf as [Hw1 Hw2].
+        apply code_at_app in Hc as [Hc1 Hc2]. apply code_at_app in Hc2 as [Hc2 Hc3]. apply code_at_app in Hc3 as [Hc3 Hc4].
+        apply code_at_app in Hc4 as [Hc4 Hc5]. apply code_at_cons in Hc5 as [Hi _].
+        specialize (IHe lex pc b stk l sv c o Hw1 Hlex Hfr Hpar Hc1). cbn [eval].
+        destruct (eval B e (absE b l sv)) as [v|x]; [|exact IHe].
+        pose proof (opt_correct sa VNone H lex _ b (v :: stk) l sv c o Hw2 Hlex Hfr Hpar Hc2) as K2.
+        unfold opt_code in K2.
+        destruct (match sa with Some x => eval B x (absE b l sv) | None => ROk VNone end) as [va|x];
+          [|eapply steps_fails; [exact IHe|exact K2]].
+        pose proof (opt_correct sb VNone H0 lex _ b (va :: v :: stk) l sv c o Hw3 Hlex Hfr Hpar Hc3) as K3.
+        unfold opt_code in K3.
+        assert (S2 := steps_trans _ _ _ _ _ _ _ _ _ IHe K2).
+        destruct (match sb with Some x => eval B x (absE b l sv) | None => ROk VNone end) as [vb|x];
+          [|eapply steps_fails; [exact S2|exact K3]].
+        pose proof (opt_correct sc (VInt I64 1) H1 lex _ b (vb :: va :: v :: stk) l sv c o Hw4 Hlex Hfr Hpar Hc4) as K4.
+        unfold opt_code in K4.
+        assert (S3 := steps_trans _ _ _ _ _ _ _ _ _ S2 K3).
+        destruct (match sc with Some x => eval B x (absE b l sv) | None => ROk (VInt I64 1) end) as [vc|x];
+          [|eapply steps_fails; [exact S3|exact K4]].
+        assert (S4 := steps_trans _ _ _ _ _ _ _ _ _ S3 K4).
+        change (b_slice B opt v va vb vc) with (vm_slice opt v va vb vc).
+        rewrite !app_length. cbn [length].
+        destruct (vm_slice opt v va vb vc) as [r|x] eqn:Er.
+        + eapply steps_step; [exact S4|]. intros fu. erewrite run_Slice by exact Hi. rewrite Er. runpos.
+        + eapply steps_fail1; [exact S4|]. intros fu. erewrite run_Slice by exact Hi. rewrite Er. reflexivity.
+      - (* ECall: not covered (wf_expr) *) cbn [wf_expr] in Hwf. discriminate.
+      - (* EArr: not covered *) cbn [wf_expr] in Hwf. discriminate.
+      - (* EMap: not covered *) cbn [wf_expr] in Hwf. discriminate.
     Qed.
 
 
